@@ -25,7 +25,7 @@ EXC = {'std::invalid_argument': 1, 'std::runtime_error': 2, 'std::length_error':
 
 
 SYSREC = {'in_addr': 'cxx_in_addr', 'in6_addr': 'cxx_in6_addr', 'timeval': 'cxx_timeval',
-          'std::random_device': 'cxx_random_device', 'std::mt19937_64': 'cxx_rng', 'std::mt19937': 'cxx_rng'}
+          'std::random_device': 'cxx_random_device', 'std::mt19937_64': 'cxx_rng', 'std::mt19937': 'cxx_rng', 'std::filesystem::path': 'cxx_path'}
 
 
 def mangle(q):
